@@ -103,6 +103,44 @@ func TestC07Guard(t *testing.T) {
 		{K: "spell", M: mAuthor, A: 2, B: 4, V: 2},
 		{K: "spell", M: mParcel, A: 2, B: 5, V: 5},
 		{K: "spell", M: mGadget, A: 7, B: 6, V: 1},
+		{K: "take", M: mTag, A: 1},
+		{K: "last", M: mGadget},
+		{K: "findbatches", M: mGadget},
+		{K: "firstorinit", M: mReview, A: 8, V: 2},
+		{K: "firstorcreate", M: mReview, A: 8, V: 3},
+		{K: "firstorcreate", M: mGadget, A: 8, V: 2},
+		{K: "updcol", M: mTag, A: 1, V: 2},
+		{K: "updcol", M: mBook, A: 2, V: 3},
+		{K: "rawscan", M: mTag},
+		{K: "exec", M: mGadget, A: 1, V: 4},
+		{K: "row", M: mGadget, A: 1},
+		{K: "rows", M: mWidget},
+		{K: "createmap", M: mCourier, A: 7, V: 2},
+		{K: "createmap", M: mCompany, A: 7, V: 3},
+		{K: "createbatches", M: mCustoms, A: 3, V: 2},
+		{K: "wherestruct", M: mGadget, V: 1},
+		{K: "wherestruct", M: mTag, A: 1, V: 2},
+		{K: "lite", M: mGadget},
+		{K: "tosql", M: mGadget, V: 1},
+		{K: "updret", M: mTag, A: 7, V: 1},
+		{K: "delret", M: mTag, A: 8, V: 1},
+		{K: "unscoped", M: mWidget, V: 0},
+		{K: "unscoped", M: mWidget, A: 1, V: 1},
+		{K: "scopes", M: mBook},
+		{K: "mig", M: mGadget, V: 0},
+		{K: "mig", M: mAuthor, V: 1},
+		{K: "mig", M: mGadget, V: 2},
+		{K: "query", M: mGadget, A: 1, V: 0},
+		{K: "query", M: mGadget, V: 1},
+		{K: "query", M: mGadget, V: 2},
+		{K: "set", M: mGadget, V: 3},
+		{K: "onconflict", M: mTag, A: 1, V: 0},
+		{K: "onconflict", M: mTag, A: 1, V: 1},
+		{K: "delassoc", M: mDepot, A: 2},
+		{K: "conn", Sub: []Op{{K: "create", M: mWidget, A: 6, V: 1}, {K: "tx", Commit: true, Sub: []Op{{K: "find", M: mWidget}}}}},
+		{K: "mtx", Commit: false, Sub: []Op{{K: "create", M: mWidget, A: 7, V: 1}, {K: "create", M: mWidget, A: 8, V: 1}}},
+		{K: "find", M: mWidget, S: 1 | 2 | 16 | 32 | 256},
+		{K: "create", M: mTag, A: 6, V: 1, S: 4 | 8 | 128},
 	}
 	// operations that must fail, with the database's error
 	bad := map[string]string{
@@ -112,7 +150,9 @@ func TestC07Guard(t *testing.T) {
 		"badcol(Gadget 1 v1)":   "err=no such column: no_such_column_1",
 	}
 	script = append(script, Op{K: "badraw", M: mGadget, A: 1, V: 1}, Op{K: "badtable", M: mGadget, A: 1, V: 2}, Op{K: "badexec", M: mGadget, A: 1}, Op{K: "badcol", M: mGadget, A: 1, V: 1})
-	for _, cfg := range []Case{{G: 1, Warm: "cold"}, {G: 1, Warm: "query", Prepare: true, SkipTx: true}, {G: 1, Warm: "one", WarmOne: mTag, Sess: "call"}, {G: 1, Warm: "parse", Sess: "goroutine", SkipTx: true}} {
+	for _, cfg := range []Case{{G: 1, Warm: "cold"}, {G: 1, Warm: "query", Prepare: true, SkipTx: true}, {G: 1, Warm: "one", WarmOne: mTag, Sess: "call"}, {G: 1, Warm: "parse", Sess: "goroutine", SkipTx: true},
+		{G: 1, Warm: "cold", Cfg: []string{"queryfields", "batchsize", "fullsave", "translate", "propagate", "logger", "replacer", "plugin"}, Root: "cond"},
+		{G: 1, Warm: "cold", Cfg: []string{"noreturning", "logger"}, Root: "ctx", Prepare: true}} {
 		c := cfg
 		c.Programs = [][]Op{script}
 		first := runSerial(&c)
@@ -123,7 +163,7 @@ func TestC07Guard(t *testing.T) {
 				}
 				continue
 			}
-			if !strings.HasPrefix(r, "ok") && !strings.HasPrefix(r, "tx ok") {
+			if !strings.HasPrefix(r, "ok") && !strings.HasPrefix(r, "tx ok") && !strings.HasPrefix(r, "conn ok") && !(strings.HasPrefix(r, "mtx {ok") && strings.HasSuffix(r, "commit ok")) {
 				t.Errorf("harness: operation %s does not work alone (prepare=%v): %s", script[i], c.Prepare, r)
 			}
 		}
@@ -135,7 +175,13 @@ func TestC07Guard(t *testing.T) {
 		if d := compare(&c, first, second); d != "" {
 			t.Errorf("harness: two serial runs of one program differ:\n%s", d)
 		}
-		if r := first.results[0][len(script)-14]; !strings.Contains(r, "parcels=[Parcel{") {
+		depotPreload := 0
+		for i, o := range script {
+			if o.K == "preload" && o.M == mDepot {
+				depotPreload = i
+			}
+		}
+		if r := first.results[0][depotPreload]; !strings.Contains(r, "parcels=[Parcel{") {
 			t.Errorf("harness: Preload(Parcels) carries no parcels: %q", r)
 		}
 		if len(first.rows) < 10 {
